@@ -4,7 +4,7 @@
 From Coq Require Import ExtrOcamlBasic ZArith NArith List FMapPositive.
 From Clemens Require Import Base.Res Base.Word Base.Bytes Search.Time Search.TT.
 From Clemens Require Import Pos.Types Att.Attacks Pos.Position Pos.Fen.
-From Clemens Require Import Eval.Eval Search.Ordering Search.Negamax.
+From Clemens Require Import Eval.Eval Eval.SeeRef Search.Ordering Search.Negamax.
 From Clemens Require Import Uci.ParseGo Uci.Input Uci.Game.
 From Clemens Require Rules.Fide Rules.SpecFen.
 From ClemensGen Require Import GoConsts.
@@ -40,6 +40,7 @@ Definition m_is_draw := is_draw.
 Definition m_eval_cached := eval_cached go_econsts.
 Definition m_eval_cached_unrepaired := eval_cached_unrepaired go_econsts.
 Definition m_see := see go_econsts.
+Definition m_see_ref := see_ref go_econsts.
 Definition m_contempt := contempt go_econsts.
 Definition m_is_endgame := is_endgame go_econsts.
 
@@ -82,7 +83,7 @@ Extraction "clemens_model.ml"
   popcount lsb bits
   m_new_position_cmd parse_go parse_go_unrepaired event_text simple_token m_handle_line m_prepare_input
   m_score_moves sort_index visit_order m_search m_search_root m_negamax m_quiescence m_init_sst m_tt_init
-  m_eval_raw m_eval_parts m_is_draw m_eval_cached m_eval_cached_unrepaired m_see m_contempt m_is_endgame
+  m_eval_raw m_eval_parts m_is_draw m_eval_cached m_eval_cached_unrepaired m_see m_see_ref m_contempt m_is_endgame
   Rules.SpecFen.read_fen Rules.SpecFen.show_fen Rules.SpecFen.show_move Rules.SpecFen.read_move
   Rules.Fide.legal_moves_fast Rules.Fide.legal_moves Rules.Fide.apply Rules.Fide.perft Rules.Fide.in_check
   Rules.Fide.checkmate Rules.Fide.stalemate Rules.Fide.initial Rules.Fide.legal
